@@ -54,6 +54,9 @@ Self = TypeVar("Self", bound="AsyncBaseClient")
 
 GRAPHQL_TRANSPORT_WS = "graphql-transport-ws"
 
+# returned by the message handlers once the server has completed the operation
+_WS_COMPLETE: Dict[str, Any] = {}
+
 
 class GraphQLTransportWSMessageType(str, enum.Enum):
     CONNECTION_INIT = "connection_init"
@@ -188,6 +191,8 @@ class AsyncBaseClient:
 
             async for message in websocket:
                 data = await self._handle_ws_message(message, websocket)
+                if data is _WS_COMPLETE:
+                    break
                 if data:
                     yield data
 
@@ -367,6 +372,7 @@ class AsyncBaseClient:
 
         if type_ == GraphQLTransportWSMessageType.COMPLETE:
             await websocket.close()
+            return _WS_COMPLETE
         elif type_ == GraphQLTransportWSMessageType.PING:
             await websocket.send(
                 json.dumps({"type": GraphQLTransportWSMessageType.PONG.value})
